@@ -7,6 +7,18 @@ hook_commits = subprocess.run(['git','-C','/repo','log','--format=%H','--grep=^v
 
 # id -> (technique, level text, level_note, design_ref)
 CLAIMED = {
+ "C12": ("rapid property-based testing over structured float64 bit patterns and boundary-constructed numeric texts against an exact math/big model of the ECMA-262 conversion algorithms",
+         "Doubles (uniform bit patterns, every exponent with boundary mantissas, powers of two and ten +-2 ulp, subnormals of every bit length, the 2^53 neighbourhood, 17-digit shortest forms) x digit counts 0..100 x radices 2..36 are formatted with String, toFixed, toExponential, toPrecision and toString(radix) and compared with an exact big-integer model (shortest and closest digits, half-up rounding from the exact binary value, ECMAScript layout, radix parse-back). Decimal midpoints of adjacent doubles (+-1 unit, up to 800 digits), hex/octal/binary midpoints (up to 300 digits) and exact ties are pushed through literals, Number(), unary plus, parseFloat, parseInt and JSON.parse and must give the nearest double, ties to even.",
+         "Trusted: math/big; strconv and big.Float only cross-check the model (a disagreement between them is a harness error). The spec's permission to zero digits after the 20th applies only to parseInt radix 10; one ulp is accepted for non-power-of-two radices above 53 bits. 08/09 literal forms are excluded. Whether Grisu or the bignum fallback ran is not observable; subnormal and 17-digit inputs are oversampled instead.",
+         "DESIGN.md 4/C12"),
+ "C14": ("rapid property-based generation of Go/JS call chains judged against an expectation computed from the chain description alone; exhaustive enumeration of all chains of depth <= 2 (quick) and depth 3 over representative payloads (thorough)",
+         "Call chains of depth <= 8 over 21 script and 7 native frame kinds, 15 Go call mechanisms (FunctionCall, reflect-wrapped funcs with/without error, ConstructorCall, ExportTo'd funcs, Callable, accessor via Object.Get, Proxy traps, DynamicObject, promise jobs) and 48 payloads (primitives, objects, Error subclasses, GoError, wrapped/joined Go errors, nil, foreign panics, interrupts, depth overflow) with try/catch/finally at any subset of script frames. The oracle derives from the chain alone: what every catch block receives, the host error type, value identity (pointer equality and === in script), errors.Is/As/Unwrap, GoError.value, Stack()[0] line and function name where creation and throw site coincide, promise state, and that uncatchable conditions are never observed by script.",
+         "Trusted: the chain-to-expectation function, written from the property text, the README Exceptions section and the ExportTo/Interrupt/Try doc comments. Async frames occur only as a chain prefix; interrupts need a direct script caller; foreign panics are checked only for arrival with the same value.",
+         "DESIGN.md 4/C14"),
+ "C17": ("rapid stateful model-based testing: operation histories over canary-guarded Go-supplied ArrayBuffers judged after every step against a byte-array reference model written from ECMA-262",
+         "Histories of up to 25 operations over 1-3 buffers of 0..64 bytes placed inside 4 KiB Go slabs pre-filled with a position-dependent canary pattern (capacity extends past the buffer, so an over-long access lands on canaries): views of all 11 element types at every offset/length, element get/set with boundary values and non-canonical keys, every %TypedArray%.prototype method incl. set with overlapping and other-typed sources, copyWithin, fill, slice, subarray, sort with comparators, species constructors, DataView get/set for all types, endiannesses and offsets, ArrayBuffer.prototype.slice, Export/ExportTo and Go writes through the exported slice; any numeric argument may be an object whose valueOf detaches the receiver's or the source's buffer or writes into it. After each step the result or thrown constructor, the callback log, every buffer byte, all canary bytes and the aliasing through the Go handle are compared with the model.",
+         "Trusted: c17/model.go + ops.go (NumericToRawBytes/RawBytesToNumeric, per-method detach semantics from ECMA-262), numref, math/big. NaN encodings are accepted as any NaN. An out-of-buffer write is visible within +-2 KiB of the buffer. Known finding: a comparator result of -0 is treated as 'less' in sort/toSorted (pinned test demands it). subarray on an already-detached receiver is excluded (ES2023 and ES2024 disagree).",
+         "DESIGN.md 4/C17"),
  "C20": ("rapid differential property testing: generated patterns paired with a neutral engine-forcing variant, run on {RE2, regexp2} x {fast path, generic protocol path}; plus a validity-by-construction syntax sub-check",
          "AST-generated ECMAScript patterns are paired with a semantically neutral variant that forces the other engine (confirmed by the VerifRegexpEngine hook) and executed in a pristine runtime (fast path) and in one de-optimised by forwarding wrappers, subclassing or own properties (generic path). The structural dumps of exec, test, match, matchAll, replace, replaceAll, search and split (indices, numbered and named captures, lastIndex after every call) must be equal four ways; built-ins are also compared with the ECMA-262 protocol algorithms evaluated over exec(), including exec call counts, and the UTF-16/lastIndex contract of RegExpBuiltinExec is checked on every dump. A second sub-check generates flag strings and patterns that are invalid by construction and demands SyntaxError from the constructor, literals and compile().",
          "Trusted: the neutrality of the three variants; the JS transcription of ECMA-262 22.2.6 in the prelude; a Go transcription of 22.2.2 and a direct call into dlclark/regexp2 are used only to attribute known dependency defects, never for the verdict. A deviation common to both engines and both paths is invisible by design of the property. 14 known input classes (mostly defects of the regexp2 dependency and u-mode-only syntax errors) are thinned to 1/40 by construction and kept visible.",
